@@ -112,6 +112,24 @@ def run(ctx):
             order = ("perm", "desc")[i % 2]
             pre = pre_of(order, s)
             full.append(P.two_runs(fam, p, p, items, s, "Equal", feed_b=lambda d, x, t, pre=pre: d.update(pre(x, t)), pre_b=pre, restrict=lambda nums: nums, extra={"order": order}))
+    # every batch is submitted two or three times in a row (a caller that re-sends a batch it got an alarm for, a stalled feed): the second
+    # submission is one more batch like any other - run A re-sends it row for row, run B re-sends another permutation of it
+    for fam in ("NNDVI", "KdqTreeBatch", "HDDDM", "CDBD"):
+        for i in range(4 if q else 16):
+            p = P.default_params(fam, rng)
+            if fam in ("HDDDM", "CDBD"):
+                p["detect_batch"] = 3
+            base = P.gen_items(fam, rng, rng.randint(4, 6))
+            if fam == "NNDVI":
+                n0 = len(base[0])
+                base = [b[:n0] + b[: max(0, n0 - len(b))] for b in base]
+            items = [base[0]]
+            for b in base[1:]:
+                items += [b] * rng.choice([2, 2, 3])
+            s = rng.randrange(10 ** 6)
+            pre = pre_of("perm", s)
+            full.append(P.two_runs(fam, p, p, items, s, "Equal", feed_b=lambda d, x, t, pre=pre: d.update(pre(x, t)), pre_b=pre,
+                                   restrict=(lambda nums: nums) if fam != "NNDVI" else None, extra={"order": "perm"}))
     # kdq-tree with a binding minimum cell size (cutpoint_proportion_lbound well above its tiny default, data on a scale of hundreds, deep trees):
     # the cell-size bound is a property of the FEATURES' ranges, whatever rows come first
     for i in range(9 if q else 30):
